@@ -14,7 +14,8 @@ FLIP_CAP = 48      # accepted flips logged per case by the driver (harness/drv_s
 
 
 def case_id(b):
-    return "%s/v%d/k%d/fp%d" % ("+".join(b["sub"]) or "none", b["v"], b["klen"], 1 if b["fp"] else 0)
+    cid = "%s/v%d/k%d/fp%d" % ("+".join(b["sub"]) or "none", b["v"], b["klen"], 1 if b["fp"] else 0)
+    return cid + ("/a%dp%d" % (b["ac"], b["pc"]) if b.get("ac") else "")
 
 
 def merge_cases(behs):
@@ -28,9 +29,10 @@ def merge_cases(behs):
             helper += [s for s in b["steps"]]
             continue
         cid = case_id(b)
-        c = cases.setdefault(cid, {"case": cid, "sub": b["sub"], "v": b["v"], "klen": b["klen"], "fp": b["fp"]})
+        c = cases.setdefault(cid, {"case": cid, "sub": b["sub"], "v": b["v"], "klen": b["klen"], "fp": b["fp"],
+                                   "ac": b.get("ac", 0), "pc": b.get("pc", 0)})
         if "m" in b:
-            c.update(m=b["m"], mi=b["mi"], fpo=b["fpo"], n=b["n"])
+            c.update(m=b["m"], mset=b["mset"], scoped=b["scoped"], mi=b["mi"], fpo=b["fpo"], n=b["n"])
         tails.setdefault(cid, set()).add(tuple(json.dumps(s, sort_keys=True) for s in b["steps"][1:]))
     order = {"same": 0, "other": 1, "none": 2}
     for cid, c in cases.items():
@@ -56,6 +58,7 @@ def annotate(trace_in, trace_out):
         elif e == "Encode":
             cur = bytes(o["bytes"])
             o["fr"] = refstun.annotate_frame(cur, refstun.key_bytes(klen))
+            o["wa"] = refstun.addr_wire(cur)
         elif e == "Decode":
             if o["key"] == "same":
                 key = refstun.key_bytes(klen)
@@ -177,7 +180,9 @@ def _pipeline(chk, replay, quick):
     chk.cov["exhaustive"] = False
     chk.cov["rule"] = (
         "cases = TLC enumeration of Stun.tla's case table (attribute subsets: none, every single attribute, every pair, all; "
-        "6 value variants covering string/data lengths 0..5 mod 4, IPv4/IPv6, plain and XOR-ed; key lengths "
+        "6 value variants covering string/data lengths 0..5 mod 4, IPv4/IPv6, plain and XOR-ed; every address attribute alone and all "
+        "seven together x 13 address classes (IPv4 corner values; IPv6 ::, ::1, v4-mapped, v4-compatible, NAT64, link-local with and "
+        "without scope id, global, all ones) x ports {0, 1, 0x2112, 65535}; key lengths "
         "{0,1,20,63,64,65,128,300}; fingerprint on/off; quick = rotated key/fingerprint for singles and pairs, thorough = full product); "
         "each encoded by the real QXmppStunMessage, decoded under the same key / another key (first or last byte changed) / no key, "
         "the decoded message read back after its heap receive buffer was overwritten in place and again after it was freed, "
@@ -231,7 +236,8 @@ def _pipeline(chk, replay, quick):
             "Helper-Hmac": "QXmppUtils::generateHmacSha1 differs from HMAC-SHA1 (RFC 2104)",
             "Helper-Crc": "QXmppUtils::generateCrc32 differs from CRC-32",
         }.get(v["prop"], v["prop"])
-        chk.violation(sig, f"{what} [{v['e']}; {where}]", [b] + cases_seen.get(v["case"], [])[:8])
+        why = next((o["hwhy"] for o in cases_seen.get(v["case"], []) if o.get("hwhy")), "") if v["prop"] == "RoundTrip" else ""
+        chk.violation(sig, f"{what} [{v['e']}; {where}]" + (f" ({why})" if why else ""), [b] + cases_seen.get(v["case"], [])[:8])
     chk.assumptions += [
         "HMAC-SHA1 and CRC-32 are uninterpreted (collision-free) in Stun.tla; python hmac/hashlib/zlib is the reference interpretation",
         "which attributes a decoded object holds is observed through the attribute types it writes when encoded again "
